@@ -155,10 +155,17 @@ fn invocation(rng: &mut Rng, max_index: usize, leaves: &[String], depth: u32) ->
     } else {
         String::new()
     };
-    format!(
-        "{name}{sp}({}){second}",
-        args.join(if rng.chance(1, 2) { ", " } else { "," })
-    )
+    // an argument list may span lines (never the gap between the name and its "(")
+    let sep = if depth == 0 && rng.chance(1, 6) {
+        ",\n    "
+    } else if rng.chance(1, 2) {
+        ", "
+    } else {
+        ","
+    };
+    let open = if depth == 0 && rng.chance(1, 12) { "(\n  " } else { "(" };
+    let close = if depth == 0 && rng.chance(1, 12) { "\n)" } else { ")" };
+    format!("{name}{sp}{open}{}{close}{second}", args.join(sep))
 }
 
 /// `#define FNk(params) body`: the body refers to its parameters, ints, plain identifiers,
